@@ -304,3 +304,48 @@ def d8(ctx):
         effs = [e for e in res.log if is_raw_write(e) or is_atomic_write(e) or is_heap_store(e) or (e["kind"] == "call" and re.search(r"::increase_discarded$", e["callee"]))]
         effs += list(discarded_writes(res, fl))
         yield Ob(key_of("C20-D8", b.path, "no-effect"), not effs, "validate_segment has no effect (%d found%s)" % (len(effs), (": " + short(effs[0].get("callee") or effs[0]["kind"], 60)) if effs else ""), b.loc())
+
+
+@rule("C20-D9", "C20", 4, "what is too small to become a segment is judged by the arena's minimum segment size as it is now - the value in the shared header, which "
+      "set_minimum_segment_size writes and every handle of the arena reads: in validate_segment and try_new_segment the size tests read nothing of the arena but "
+      "header().min_segment_size (a copy kept in the handle goes stale in every other handle when the minimum is changed)", also=("C10",))
+def d9(ctx):
+    for fl in FLAVOURS:
+        for fn in ("validate_segment", "try_new_segment"):
+            b = ctx.facts.one(r"^%s::Arena::%s$" % (fl, fn))
+            ev, res = ctx.eval(b, no_inline=(r"increase_discarded$",))
+            conds = [e["cond"] for e in res.log if e["kind"] == "switch" and not e["chain"]]
+            hdr = ("call", "%s::Arena::header" % fl, (("param", 0, "self"),))
+
+            def is_min(x):
+                if tag(x) == "field" and len(x) == 3 and x[1] == hdr and x[2] == "min_segment_size":
+                    return True
+                return tag(x) == "load" and tag(x[-1]) == "heap" and x[-1][1] == hdr and tuple(x[-1][2]) == ("min_segment_size",)
+            n_min, other = 0, []
+
+            def walk(x):
+                nonlocal n_min
+                if is_min(x):
+                    n_min += 1
+                    return
+                if isinstance(x, Lin):
+                    for a in x.m:
+                        walk(a)
+                    return
+                if not isinstance(x, tuple):
+                    return
+                if x == ("param", 0, "self") or tag(x) in ("load", "hload", "field", "heap"):
+                    # any other state read through the handle or the heap
+                    other.append(x)
+                    return
+                if tag(x) == "call" and x[1] == "align_offset":
+                    for a in x[2]:
+                        walk(a)
+                    return
+                for a in x[1:]:
+                    if isinstance(a, (tuple, Lin)):
+                        walk(a)
+            for c in conds:
+                walk(c)
+            yield Ob(key_of("C20-D9", b.path, "threshold-is-header-minimum"), n_min >= 1 and not other,
+                     "the size tests read header().min_segment_size (%d time(s)) and no other state (%s)" % (n_min, [short(o, 60) for o in other][:3]), b.loc())
